@@ -119,6 +119,9 @@ pub fn install_panic_hook() {
         let loc = info.location().map(|l| format!("{}:{}", l.file(), l.line())).unwrap_or_default();
         if std::env::var("VERIF_PANIC_TRACE").is_ok() {
             eprintln!("panic: {} at {}", msg, loc);
+            if std::env::var("VERIF_PANIC_TRACE").map(|v| v == "full").unwrap_or(false) {
+                eprintln!("{}", std::backtrace::Backtrace::force_capture());
+            }
         }
         LAST_PANIC.with(|p| *p.borrow_mut() = format!("{} at {}", msg, loc));
     }));
